@@ -411,7 +411,11 @@ func c16FormatOne(c *Ctx, pool *Pool, i int, tag string, seed uint64, in []byte)
 	c.ev.Fire("disk0_shape_"+sh.name, 1)
 	c.event(fmt.Sprintf("c16fmt|%d%s|f", i, tag), w.Argv, sh.name, o.Exit, o.Stdout, treeSig(o, ""), opSig(o))
 	if !o.TimedOut {
-		if v := checkFormatF(ref, o, sh); v != nil {
+		if sh.name == "name-max" && ref.FormatOK && o.Exit != 0 {
+			// no sibling name can be derived from a NAME_MAX name: a wrapper
+			// that needs one and says so (non-zero exit) has promised nothing
+			c.ev.Count("fault_runs_that_reported_failure", 1)
+		} else if v := checkFormatF(ref, o, sh); v != nil {
 			c.candidate16Format(i, "format-f", v, in, w, &sh, nil)
 		}
 	}
